@@ -184,8 +184,12 @@ def stereo_case(case):
     tp, tidx = qproj.target_of(t)
     tp['par'] = [chy.parity(t, n, tidx) for n in t._atoms]
     tp['ct'] = chy.cistrans(t, tidx)
-    maps = [[tidx[mp[n]] for n in order] for mp in q.get_mapping(t, automorphism_filter=False)]
-    return {'sp': list(case['shape']), 'p': pp, 't': tp, 'maps': maps}
+    exc = ''
+    try:
+        maps = [[tidx[mp[n]] for n in order] for mp in q.get_mapping(t, automorphism_filter=False)]
+    except Exception as e:
+        maps, exc = [], type(e).__name__
+    return {'sp': list(case['shape']), 'p': pp, 't': tp, 'maps': maps, 'exc': exc}
 
 
 def run(ck):
